@@ -30,7 +30,7 @@ def gen_env_group(rng, gi):
     elif r < .28: fs.append(["slice", rng.choice([0, 1]), rng.choice([None, 6]), rng.choice([1, 2])])
     elif r < .33: fs.append(["binary"])
     elif r < .38: fs.append(["where", rng.choice([1, 3])])
-    if rng.random() < .12: fs.append(["logged", rng.randrange(1, 9)])
+    if rng.random() < .2: fs.append(["logged", rng.randrange(1, 9)])
     if rng.random() < .12: fs.append(["batch", rng.choice([2, 3])])
     return g
 
@@ -47,6 +47,8 @@ def gen_spec(rng, max_groups=3, max_lrns=3, max_vals=2):
     lrns = [gen_learner(rng, i) for i in range(rng.randint(1, max_lrns))]
     vals = [gen_evaluator(rng, i) for i in range(rng.randint(1, max_vals))]
     for v in [v for v in vals if v["kind"] == "func"][1:]: v["kind"] = "rec"     # the bare function is one object: list it once
+    if any(f[0] == "logged" for g in groups for f in g["filters"]) and rng.random() < .8:
+        vals[-1]["kind"] = rng.choice(["cb-ips", "rejection"])                     # logged data is actually used by an off-policy evaluator
     spec = {"groups": groups, "lrns": lrns, "vals": vals, "seed": rng.choice([1, 7, 42]), "triples": "cross"}
     if rng.random() < .35:
         # explicit tuple list over (group-member index resolved at build time, learner, evaluator), objects shared in random patterns
